@@ -18,6 +18,12 @@ mkdir -p .build-mut ".build-mut-$name/bin"
   cp -f .build-mut/bin/wild ".build-mut-$name/bin/wild"
   cp -f .build-mut/bin/wild-b2 ".build-mut-$name/bin/wild-b2"
   for f in unitx linker-diff; do [ -e .build/bin/$f ] && cp -f .build/bin/$f ".build-mut-$name/bin/$f"; done
+  case " $* " in *" C34 "*)
+    # linker-diff is the subject of C34: build it from the worktree too
+    VERIF_REPO=$wt VERIF_BUILD=.build-mut ./vbuild linker-diff || exit 2
+    cp -f .build-mut/bin/linker-diff ".build-mut-$name/bin/linker-diff" ;;
+  esac
+  # (unitx, the engine of C12/C13/C29, path-depends on /repo and is NOT rebuilt from the worktree)
   exit 0
 ) 8> .build-mut/trial.lock || { echo "build failed" >&2; exit 2; }
 export VERIF_REPO=$wt VERIF_BUILD=.build-mut-$name
